@@ -146,7 +146,11 @@ class DotHooks(Hooks):
                     facts = self._removal(facts, v, i.loc)
                 return facts
             if i.dst is not None and i.dst.k == 'ref':
-                return self._kill(facts, i.dst.v, i.loc)
+                facts = self._kill(facts, i.dst.v, i.loc)
+                t = call_target(i)
+                if t is not None and base_name(t) == 'uriIsHostSet':
+                    facts = facts | {('hostcall', i.dst.v)}
+                return facts
             return facts
         if i.op != 'assign':
             return facts
@@ -158,7 +162,12 @@ class DotHooks(Hooks):
             v = d.v
             if 'PathSegment' in (d.ty or '') and self._dots(facts, v):
                 self.sites['advances'].add(str(i.loc))
+            walkvar = any(x[0] == 'lenof' and x[2] == v for x in facts)
             facts = self._kill(facts, v, i.loc)
+            if walkvar:
+                # the walk moves on to another node: what was established about the old one and about the locals of the
+                # loop body is void; the mode and the host test are properties of the call
+                return frozenset(x for x in facts if x[0] in ('rel', 'hostset'))
             cv = const_value(i.src, self.prog)
             if cv is not None:
                 if cv == 0 and '*' in (d.ty or ''):
@@ -188,6 +197,19 @@ class DotHooks(Hooks):
                 v = _ref(t.c[0])
                 if v is not None and s is not None and 'SafeToPointTo' in expr_key(s):
                     facts = self._removal(facts, v, i.loc)
+                    facts = facts | set(('placeholder', w) for w in self._aliases(facts, v))
+        # the function itself makes the path of a relative reference empty
+        if d.k == 'member' and d.v in ('pathHead', 'pathTail') and ('rel', True) in facts and ('hostset', True) not in facts:
+            if d.v == 'pathHead' and const_value(i.src, self.prog) == 0:
+                self.bad.append((i.loc, 'nonempty-relative', 'head-null', 'in relative mode, on a path that has not established a host, the '
+                                 'last remaining segment is released and the path becomes empty'))
+            sv = _ref(i.src)
+            if sv is not None and ('placeholder', sv) in facts:
+                other = 'pathTail' if d.v == 'pathHead' else 'pathHead'
+                if ('is', other, sv) in facts or any(('is', other, a) in facts for a in self._aliases(facts, sv)):
+                    self.bad.append((i.loc, 'nonempty-relative', 'placeholder-only', 'in relative mode, on a path that has not established a '
+                                     'host, the empty placeholder becomes the only segment: the path is written as the empty string'))
+                facts = facts | {('is', d.v, sv)}
         return facts
 
     def edge(self, b, cond, truth, facts):
@@ -196,6 +218,8 @@ class DotHooks(Hooks):
         if zt is not None:
             var, zero_when_true = zt
             nonzero = (zero_when_true != truth)
+            if ('hostcall', var) in facts:
+                facts = facts | {('hostset', nonzero)}
             if var == self.rel:
                 if ('rel', not nonzero) in facts:
                     return None
@@ -301,6 +325,16 @@ def rule_dot_removal(ctx, chk, rules, prefix=''):
         if len(h.sites['dot-tests']) < 2 or len(h.sites['removals']) < 4 or len(set(n for _, n in h.established)) < 2:
             raise AnalysisBroken('%s: dot tests / removals not recognised (%r)' % (name, dict((k, len(v)) for k, v in h.sites.items())))
         n += len(h.sites['removals'])
+        if 'nonempty-relative' in rules:
+            found = {}
+            for loc, kind, site, detail in h.bad:
+                if kind == 'nonempty-relative' and site not in found:
+                    found[site] = (loc, detail)
+            for site, (loc, detail) in sorted(found.items()):
+                chk.bad(rules['nonempty-relative'], 'empty-path:%s' % site, loc, '%s, %s: %s' % (name, fmt_loc(loc), detail), func=name)
+            if not found:
+                chk.ok(rules['nonempty-relative'], 'empty-path:none:%s' % name, f.loc, 'no path through the loop body empties the path in '
+                       'relative mode without an established host', func=name)
         for kind in ('dots-removed', 'essential-dot', 'updir-kept'):
             if kind not in rules:
                 continue
